@@ -307,7 +307,8 @@ def _kill(facts, e):
     return tuple(f for f in facts if survives(f))
 
 
-def explore(f, start_block, start_idx, subject, value, classify_return, max_states=40000, origin_callid=None, from_entry=True):
+def explore(f, start_block, start_idx, subject, value, classify_return, max_states=40000, origin_callid=None, from_entry=True,
+            terminal_calls=None, forbidden_calls=()):
     """Walk every path from the function entry through the site (start_block,start_idx); after the site assume
     subject == value.  Branch conditions are decided (a) under the assumption when they mention the subject,
     (b) by the facts collected from the branches already taken on this path (correlated branches: `edx < n` at the
@@ -352,6 +353,20 @@ def explore(f, start_block, start_idx, subject, value, classify_return, max_stat
                             stop = True
                             break
                     kind = classify_return(b, i, e, dict(env))
+                    if kind != "fail" and (b.id, i) not in reported:
+                        reported.add((b.id, i))
+                        out.append((kind, b, i, e, path, lost))
+                stop = True
+                break
+            if phase == 1 and e["k"] == "call" and e.get("callee") in forbidden_calls and (b.id, i) not in reported:
+                reported.add((b.id, i))
+                out.append(("forbidden:" + e["callee"], b, i, e, path, lost))
+            if e["k"] == "call" and terminal_calls and e.get("callee") in terminal_calls:
+                # exit(n): a process exit with status n, classified through the constants known on this path
+                if phase == 1:
+                    ai = terminal_calls[e["callee"]]
+                    val = eval_under(e["args"][ai]["tree"], None, None, dict(env)) if ai < len(e["args"]) else None
+                    kind = "fail" if (val is not None and val != 0) else ("success" if val == 0 else "unknown:exit-status")
                     if kind != "fail" and (b.id, i) not in reported:
                         reported.add((b.id, i))
                         out.append((kind, b, i, e, path, lost))
